@@ -191,15 +191,23 @@ func runProperty(id string, def propDef, repo, verif, tier string, seed int64, n
 		// that could not be decided for that reason are recorded as not decided here
 		// (the layout defect itself is reported under the properties that own it).
 		premiseFailed := false
+		failedPkgs := map[string]bool{}
 		for _, o := range append(append([]Obligation(nil), all...), layoutObls...) {
 			if (o.Rule == "R07.store" || o.Rule == "R07.overlap") && !o.OK {
 				premiseFailed = true
+				if i := strings.IndexByte(o.Instance, '.'); i > 0 {
+					failedPkgs[o.Instance[:i]] = true
+				}
 			}
 		}
 		ownsPremise := w.Wants("R07.store")
 		kept := 0
 		for _, o := range all {
-			if premiseFailed && !ownsPremise && !o.OK && strings.Contains(o.Detail, "premise R07.store failed") {
+			inFailedPkg := false
+			if i := strings.IndexByte(o.Instance, '.'); i > 0 && failedPkgs[o.Instance[:i]] {
+				inFailedPkg = true
+			}
+			if premiseFailed && !ownsPremise && !o.OK && (strings.Contains(o.Detail, "premise R07.store failed") || inFailedPkg) {
 				o.OK = true
 				o.NonTrivial = false
 				o.Detail = "not decided in this run (layout premise failed; reported under C07/C02/C06): " + o.Detail
@@ -223,7 +231,17 @@ func runProperty(id string, def propDef, repo, verif, tier string, seed int64, n
 				worldClean = false
 			}
 		}
+		owned := func(rule string) bool {
+			// rule Rnn.* is owned by property Cnn
+			return len(rule) >= 3 && len(id) >= 3 && rule[0] == 'R' && rule[1:3] == id[1:3]
+		}
 		for _, r := range fr {
+			if owned(r) && !(premiseFailed && !ownsPremise) {
+				// a property's own rules must be present: an anchor that could not be
+				// analysed is a failure of that property (fail-closed)
+				run.floor(r, def.Floors[r])
+				continue
+			}
 			if !worldClean && len(run.Obls) > 0 {
 				// Instance floors guard against a rule that silently matches nothing on a
 				// tree the analyser otherwise understands. When some construct of the tree
@@ -236,13 +254,13 @@ func runProperty(id string, def propDef, repo, verif, tier string, seed int64, n
 					}
 				}
 				if allOK {
-					run.Notes = append(run.Notes, "instance floors not asserted: another rule group reported an unrecognised or violating construct, dependent instance counts may legitimately differ")
-					break
+					run.Notes = append(run.Notes, "instance floor of "+r+" not asserted: another rule group reported an unrecognised or violating construct, dependent instance counts may legitimately differ")
+					continue
 				}
 			}
 			if premiseFailed && !ownsPremise {
-				run.Notes = append(run.Notes, "instance floors not asserted: the layout premise failed, dependent rules were not decided")
-				break
+				run.Notes = append(run.Notes, "instance floor of "+r+" not asserted: the layout premise failed, dependent rules were not decided")
+				continue
 			}
 			run.floor(r, def.Floors[r])
 		}
